@@ -1129,6 +1129,9 @@ func vCompareMachine(set string, i int) {
 	if mem {
 		pages := verifrt.U32("pages")
 		verifrt.Assume(pages <= 65536)
+		if set == "T6m" {
+			verifrt.Assume(pages <= 65535) // the 4 GiB case is the known finding reported by VerifC02_SSA_Single / VerifC02_L2_Single
+		}
 		if set == "T6" {
 			verifrt.Assume(pages <= 2) // the SIMD family is about lanes, not about memory sizes (those are C02's)
 		}
@@ -1238,6 +1241,14 @@ func vFamilyPart(set string, parts int) int {
 // every dereference of the compiled code is an obligation (inside the current linear memory or its own contexts/stack).
 //verif:opts split=part:12 obl-timeout=240000 wall=1500
 func VerifC02_L2_Single() { vCompareMachine("T2s", vFamilyPart("T2s", 12)) }
+
+// VerifC02_L2_LaneAccess: the v128 lane loads/stores (and scalars fused from loads into lane inserts) at the level of the
+// final machine instructions, for every memory size below 4 GiB: the checked extent is as wide as the access.
+//verif:opts split=prog:22 obl-timeout=240000 wall=1500
+func VerifC02_L2_LaneAccess() {
+	_, _, _, _, _, _, n := frontend.VProgram("T6m", 0)
+	vCompareMachine("T6m", verifrt.Choose("prog", n))
+}
 
 // VerifC02_L2_Reuse: the reuse shapes (same base value re-addressed, across calls and memory.grow, constant bases folded
 // into address modes) at the level of the final machine instructions.
